@@ -468,6 +468,39 @@ fn cmd_config() -> (u64, Vec<String>) {
             }
         }
     }
+    // layers as they are READ (serde_yaml + humantime): a key that is written is set, whatever its value -- zero included
+    {
+        use std::time::Duration;
+        let durs: [(&str, Option<Duration>); 5] = [("", None), ("timeout: 0s", Some(Duration::ZERO)), ("timeout: 0ms", Some(Duration::ZERO)), ("timeout: 5s", Some(Duration::from_secs(5))), ("timeout: 1m 1s", Some(Duration::from_secs(61)))];
+        let mut read: Vec<(String, TestCaseConfig, Option<Duration>)> = vec![];
+        for (txt, want) in durs {
+            n += 1;
+            match serde_yaml::from_str::<TestCaseConfig>(&format!("{{{txt}}}")) {
+                Ok(c) => { if c.timeout != want { bad.push(format!("{{\"why\":{}}}", jstr(&format!("C16: the inline configuration {{{txt}}} is read with timeout {:?}, written {want:?}", c.timeout)))); } read.push((txt.to_string(), c, want)); }
+                Err(e) => bad.push(format!("{{\"why\":{}}}", jstr(&format!("C16: the inline configuration {{{txt}}} is rejected: {e}")))),
+            }
+        }
+        for (ht, hi, hw) in &read {
+            for (lt, lo, lw) in &read {
+                n += 1;
+                let r = hi.with_defaults_from(lo);
+                if r.timeout != hw.or(*lw) && bad.len() < 3 {
+                    bad.push(format!("{{\"why\":{}}}", jstr(&format!("C16: test case {{{ht}}} over defaults {{{lt}}}: timeout in effect {:?}, expected {:?}", r.timeout, hw.or(*lw)))));
+                }
+            }
+        }
+        for (txt, want) in [("total_timeout: 0s", Some(Duration::ZERO)), ("total_timeout: 7s", Some(Duration::from_secs(7))), ("shell: bash", None)] {
+            n += 1;
+            match serde_yaml::from_str::<DocumentConfig>(txt) {
+                Ok(c) => {
+                    let eff = c.with_defaults_from(&DocumentConfig::default_markdown()).total_timeout;
+                    let exp = want.or(DocumentConfig::default_markdown().total_timeout);
+                    if c.total_timeout != want || eff != exp { bad.push(format!("{{\"why\":{}}}", jstr(&format!("C16: front matter `{txt}` is read with total_timeout {:?} (written {want:?}); over the Markdown defaults {eff:?} is in effect, expected {exp:?}", c.total_timeout)))); }
+                }
+                Err(e) => bad.push(format!("{{\"why\":{}}}", jstr(&format!("C16: the front matter `{txt}` is rejected: {e}")))),
+            }
+        }
+    }
     // document level lists
     let a = DocumentConfig { append: vec!["a".into()], prepend: vec!["pa".into()], ..Default::default() };
     let b = DocumentConfig { append: vec!["b".into()], prepend: vec!["pb".into()], ..Default::default() };
@@ -1278,6 +1311,124 @@ fn cmd_c15(n: usize) -> (u64, Vec<String>) {
     (cases, bad)
 }
 
+
+// ------------------------------------------------------------------------------------------------ line classification leaves (C06 / C07)
+/// independent reading of the exit-code line: `[` + one or more ASCII digits + `]`, nothing else on the line, value fits i32
+fn leaf_exit_ref(line: &str) -> Option<i32> {
+    let inner = line.strip_prefix('[')?.strip_suffix(']')?;
+    if inner.is_empty() || !inner.bytes().all(|b| b.is_ascii_digit()) { return None; }
+    inner.parse::<i32>().ok()
+}
+/// independent reading of a title line (trimmed): a paragraph line starts with a letter (any script); a header is `#`s, whitespace, text
+fn leaf_title_ref(line: &str) -> Option<String> {
+    let t = line.trim();
+    if t.chars().next().map_or(false, |c| c.is_alphabetic()) { return Some(t.to_string()); }
+    let rest = t.trim_start_matches('#');
+    if rest.len() == t.len() { return None; }
+    let text = rest.trim_start();
+    if text.len() == rest.len() || text.is_empty() { return None; }
+    Some(text.to_string())
+}
+/// BOUNDED: the two regex-based leaves the C06/C07 proofs keep abstract (exit_code_of, title_of), through the real parsers: every
+/// candidate exit-code line as the last body line of a scrut block / Cram test, every candidate title line as the paragraph before a block
+fn cmd_leaves(which: &str) -> (u64, Vec<String>) {
+    use scrut::parsers::cram::CramParser;
+    use scrut::parsers::markdown::{MarkdownParser, DEFAULT_MARKDOWN_LANGUAGES};
+    use scrut::parsers::parser::Parser;
+    let exits = ["[0]", "[1]", "[99]", "[255]", "[01]", "[2147483647]", "[2147483648]", "[99999999999]", "[-1]", "[+3]", "[-0]", "[ 1]", "[1 ]", "[]", "[a]", "[1a]", "[a1]", "[1][2]", "[[1]]",
+        "[1] ", "x[1]", "[1]x", "[١]", "[1.0]", "[0x1]", "(1)", "[1", "1]"];
+    let titles = ["plain words", "Überprüfe die Ausgabe", "Привет мир", "日本語のテスト", "élan vital", "  indented text  ", "# Heading", "## Ünï code", "###\tTabbed", "#  two spaces", "#nospace",
+        "#", "# ", "1. numbered", "- list item", "> quote", "`code` first", "_emph_ first", "(paren)", "42", "ßtraße"];
+    let mut n = 0u64;
+    let mut bad: Vec<String> = vec![];
+    let mut report = |class: &str, why: String, doc: &str, bad: &mut Vec<String>| { if bad.len() < 8 { bad.push(format!("{{\"class\":{},\"why\":{},\"case\":{}}}", jstr(class), jstr(&why), jstr(doc))); } };
+    std::panic::set_hook(Box::new(|_| {}));
+    for x in exits {
+        for format in ["markdown", "cram"] {
+            if format != which { continue; }
+            n += 1;
+            let doc = if format == "markdown" { format!("# t\n\n```scrut\n$ cmd\nout\n{x}\n```\n") } else { format!("t\n  $ cmd\n  out\n  {x}\n") };
+            let maker = std::sync::Arc::new(ExpectationMaker::new(RuleRegistry::default()));
+            let r = std::panic::catch_unwind(std::panic::AssertUnwindSafe(|| if format == "markdown" { MarkdownParser::new(maker, DEFAULT_MARKDOWN_LANGUAGES, None).parse(&doc) } else { CramParser::new(maker, 2).parse(&doc) }));
+            let want = leaf_exit_ref(x);
+            match r {
+                Err(_) => report("exit-code-line", format!("{format}: parse panics on a body line {x:?}"), &doc, &mut bad),
+                Ok(Err(e)) => report("exit-code-line", format!("{format}: body line {x:?}: parse error {e}"), &doc, &mut bad),
+                Ok(Ok((_, tcs))) => {
+                    let ok = tcs.len() == 1 && tcs[0].exit_code == want && tcs[0].expectations.len() == if want.is_some() { 1 } else { 2 }
+                        && tcs[0].expectations[0].original_string() == "out" && (want.is_some() || tcs[0].expectations[1].original_string() == x);
+                    if !ok {
+                        report("exit-code-line", format!("{format}: body line {x:?} read as exit code {:?} with expectations {:?}; expected exit code {want:?} and {}", tcs.first().and_then(|t| t.exit_code),
+                            tcs.first().map(|t| t.expectations.iter().map(|e| e.original_string()).collect::<Vec<_>>()), if want.is_some() { "only the expectation `out`".to_string() } else { format!("the expectations `out`, {x:?}") }), &doc, &mut bad);
+                    }
+                }
+            }
+        }
+    }
+    for t in titles {
+        if which != "markdown" { continue; }
+        n += 1;
+        let doc = format!("# Setup\n\n{t}\n\n```scrut\n$ second\n```\n");
+        let maker = std::sync::Arc::new(ExpectationMaker::new(RuleRegistry::default()));
+        let r = std::panic::catch_unwind(std::panic::AssertUnwindSafe(|| MarkdownParser::new(maker, DEFAULT_MARKDOWN_LANGUAGES, None).parse(&doc)));
+        let want = leaf_title_ref(t).unwrap_or_else(|| "Setup".to_string());
+        match r {
+            Err(_) => report("title-line", format!("parse panics on the line {t:?}"), &doc, &mut bad),
+            Ok(Err(e)) => report("title-line", format!("line {t:?}: parse error {e}"), &doc, &mut bad),
+            Ok(Ok((_, tcs))) => {
+                if !(tcs.len() == 1 && tcs[0].title == want && tcs[0].shell_expression == "second" && tcs[0].line_number == 6) {
+                    report("title-line", format!("the test after the heading `# Setup` and the line {t:?} has the title {:?} (line {:?}), expected {want:?} (nearest preceding heading or paragraph)", tcs.first().map(|t| t.title.clone()), tcs.first().map(|t| t.line_number)), &doc, &mut bad);
+                }
+            }
+        }
+    }
+    (n, bad)
+}
+
+// ------------------------------------------------------------------------------------------------ glob semantics (C04)
+/// `?` = exactly one character, `*` = any run of characters, everything else stands for itself
+fn glob_ref(g: &[char], l: &[char]) -> bool {
+    match g.first() {
+        None => l.is_empty(),
+        Some('*') => (0..=l.len()).any(|k| glob_ref(&g[1..], &l[k..])),
+        Some('?') => !l.is_empty() && glob_ref(&g[1..], &l[1..]),
+        Some(c) => l.first() == Some(c) && glob_ref(&g[1..], &l[1..]),
+    }
+}
+/// BOUNDED: validates the assumed matching semantics of the wildmatch crate (GlobRule) and of the regex the Cram glob is translated
+/// to (CramGlobRule): every glob of up to `n` characters over {a, é, ?, *} against every line of up to 3 characters over {a, b, é, 😀}
+fn cmd_glob(n: usize) -> (u64, Vec<String>) {
+    use scrut::rules::glob::GlobRule;
+    use scrut::rules::glob_cram::CramGlobRule;
+    use scrut::rules::rule::RuleMaker;
+    let ga = ['a', 'é', '?', '*'];
+    let la = ['a', 'b', 'é', '😀'];
+    let words = |alpha: &[char], max: usize| { let mut all: Vec<Vec<char>> = vec![vec![]]; let mut cur: Vec<Vec<char>> = vec![vec![]];
+        for _ in 0..max { cur = cur.iter().flat_map(|w| alpha.iter().map(move |c| { let mut t = w.clone(); t.push(*c); t })).collect(); all.extend(cur.iter().cloned()); } all };
+    let globs = words(&ga, n.max(1));
+    let lines = words(&la, 3);
+    let mut cases = 0u64;
+    let mut bad = vec![];
+    for g in &globs {
+        let gs: String = g.iter().collect();
+        for (name, rule) in [("glob (wildmatch)", GlobRule::make(&gs)), ("glob (cram)", CramGlobRule::make(&gs))] {
+            let rule = match rule { Ok(r) => r, Err(e) => { if bad.len() < 8 { bad.push(format!("{{\"why\":{},\"case\":{}}}", jstr(&format!("C04 {name}: the glob {gs:?} is rejected: {e}")), jstr(&gs))); } continue; } };
+            for l in &lines {
+                cases += 1;
+                let ls: String = l.iter().collect();
+                let want = glob_ref(g, l);
+                for nl in ["\n", ""] {
+                    let got = rule.matches(format!("{ls}{nl}").as_bytes());
+                    if got != want && bad.len() < 8 {
+                        bad.push(format!("{{\"why\":{},\"case\":{}}}", jstr(&format!("C04 {name}: glob {gs:?} {} the line {ls:?}{}, expected {}", if got { "matches" } else { "does not match" }, if nl.is_empty() { " (no final newline)" } else { "" }, if want { "a match" } else { "no match" })), jstr(&format!("{gs} / {ls}"))));
+                    }
+                }
+            }
+        }
+    }
+    (cases, bad)
+}
+
 fn cmd_cram_probe() -> (u64, Vec<String>) {
     use scrut::parsers::cram::CramParser;
     use scrut::parsers::parser::Parser;
@@ -1334,6 +1485,8 @@ fn main() {
         "c10-probe" => cmd_c10_probe(),
         "c15" => cmd_c15(args.get(2).and_then(|s| s.parse().ok()).unwrap_or(2)),
         "c14" => cmd_c14(),
+        "leaves" => cmd_leaves(args.get(2).map(|s| s.as_str()).unwrap_or("markdown")),
+        "glob" => cmd_glob(args.get(2).and_then(|s| s.parse().ok()).unwrap_or(3)),
         "c13" => cmd_c13(args.get(2).and_then(|s| s.parse().ok()).unwrap_or(1)),
         "c19" => cmd_c19(args.get(2).and_then(|s| s.parse().ok()).unwrap_or(2)),
         "c09" => cmd_c09(args.get(2).and_then(|s| s.parse().ok()).unwrap_or(3)),
